@@ -1474,7 +1474,7 @@ class Backend:
 
 def href_to_path(environ, href) -> Optional[str]:
     script_name = environ["SCRIPT_NAME"].rstrip("/")
-    if not href or not href.startswith(script_name):
+    if not href or not (href == script_name or href.startswith(script_name + "/")):
         return None
     else:
         path = href[len(script_name) :]
@@ -1495,11 +1495,13 @@ def _get_resources_by_hrefs(
     Returns: iterator over (href, resource) tuples
     """
     paths: dict[str, str] = {}
+    unresolvable = set()
     for href in hrefs:
         path = href_to_path(environ, href)
         if path is not None:
             paths[path] = href
-        else:
+        elif href not in unresolvable:
+            unresolvable.add(href)
             yield (href, None)
 
     for relpath, resource in backend.get_resources(paths):
